@@ -151,6 +151,13 @@ def run(ctx):
                         em |= keyset[kid].sign(em, created=K.ts(K.T0 + 7100 + j))
                 eblob = bytes(em)
                 ev.append({'k': 'export', 'label': label + ' [encrypted]', 'blob': octets(eblob[:400000]), 'inner': [], 'expect': dict(exp, encrypted=True)})
+                if n % 3 == 0 and len(eblob) < 400000:
+                    # a copy of a message is a message: same export (the grammar clauses then hold for it as well)
+                    import copy as _copy
+                    ev.append({'k': 'export', 'label': label + ' [copy of the encrypted message]', 'blob': octets(bytes(_copy.copy(em))), 'inner': [],
+                               'expect': dict(exp, encrypted=True)})
+                    ev.append({'k': 'import', 'label': label + ' [copy of the plain message exports identically]', 'raised': False, 'before': {'same': True},
+                               'after': {'same': bytes(_copy.copy(msg)) == bytes(msg)}, 'clause': 'C20.metadata'})
                 em2 = pgpy.PGPMessage.from_blob(str(em) if sc['armor'] else eblob)
                 dec = em2.decrypt(PW) if sc['enc'] == 'pw' else keyset['k1'].decrypt(em2)
                 dblob = bytes(dec)
